@@ -2,6 +2,8 @@ import IwModel.Model.Locks
 import IwModel.Model.LockSys
 import IwModel.Lemmas.LockSys
 import IwModel.Lemmas.Locks
+import IwModel.Model.Atomic
+import IwModel.Lemmas.Atomic
 /-! # C07 — concurrent API calls are atomic, race-free and cannot deadlock
 
 What is proved here is the *protocol*: the transition system of `Model/LockSys.lean` (threads, read/write
@@ -79,6 +81,17 @@ theorem accepted_calls_no_deadlock (n : Nat) (sess : Nat → List (Kind × List 
   · intro i hi
     exact ⟨rfl, rfl, rfl, session_ordered _ (hacc i hi), hunits i hi⟩
 
+/-- **Effects are bracketed by a writer lock.**  In every lock-event sequence accepted for any call kind, the
+    moment the allocator or the file is locked for modification (block allocation, growth and re-mapping of the
+    file) a database write lock or the exclusive store lock is held: the multi-step effect of a writer runs
+    inside the section that `atomic_effects_linearize` needs. -/
+theorem effects_bracketed_by_writer_lock (k : Kind) (l : Lk) (hl : l = .alloc ∨ l = .file) (pre post : List Ev)
+    (hacc : accepts k (pre ++ .acq l true :: post) = true) :
+    ∃ h, runHeld [] pre = some h ∧ holdsWriter h = true := by
+  have hrun := accepts_ordered hacc
+  simp only [accepts, Bool.and_eq_true] at hacc
+  exact protected_split l hl pre post [] [] hrun hacc.1.2
+
 /-- The hypothesis on cursors is needed: a thread that opens a cursor and then syncs (WAL) waits for its own
     unit of the worker count — the model exhibits the documented self-deadlock. -/
 theorem self_deadlock_witness :
@@ -88,6 +101,53 @@ theorem self_deadlock_witness :
   refine ⟨?_, ?_⟩
   · simp [OrderedFrom, dropLock, Lk.rank]
   · simp [UnitsOk]
+
+/-- **Atomic effects linearize.**  Let calls consist of any number of micro-steps on the contents of their
+    database and on the caller's private state, run under that database's lock — write mode, or read mode for
+    calls whose micro-steps leave the contents unchanged — and let threads interleave at micro-step granularity
+    in any way the locks allow (`CRun`).  Whenever all threads have finished, the same final contents of every
+    database and the same private state of every thread (all values read, all results) are produced by an
+    *atomic* run (`ARun`): the calls executed one at a time, each thread's calls in program order. -/
+theorem atomic_effects_linearize {S X : Type} (c0 c1 : Atomic.Cfg S X) (hinit : Atomic.Initial c0)
+    (hro : Atomic.ReadersReadOnly c0) (hrun : Atomic.CRun c0 c1) (hfin : Atomic.Final c1) :
+    ∃ a1, Atomic.ARun (Atomic.initA c0) a1 ∧ a1.sh = c1.sh ∧
+      ∀ i, i < c1.n → (a1.thr i).x = (c1.thr i).x ∧ (a1.thr i).todo = [] := by
+  have hsim0 : Atomic.Sim c0 (Atomic.initA c0) := by
+    refine ⟨rfl, hinit.2.symm, ?_⟩
+    intro i
+    simp [Atomic.initA, Atomic.absT, hinit.1 i]
+  obtain ⟨hinv1, a1, har, hn, hsh, hthr⟩ := Atomic.sim_run hrun (Atomic.ainv_initial hinit hro) hsim0
+  have hcur : ∀ i, (c1.thr i).cur = none := by
+    intro i
+    by_cases hi : i < c1.n
+    · exact (hfin i hi).1
+    · exact hinv1.j6 i (Nat.le_of_not_lt hi)
+  refine ⟨a1, har, ?_, ?_⟩
+  · rw [hsh]
+    funext d
+    apply hinv1.j4
+    intro i k hk; rw [hcur i] at hk; cases hk
+  · intro i hi
+    rw [hthr i]
+    simp [Atomic.absT, hcur i, (hfin i hi).2]
+
+/-- non-vacuity of the atomicity theorem: two threads, a two-step increment under the write lock against a
+    reader of another database; the start satisfies the hypotheses and the fine-grained semantics can move. -/
+def exInc : Atomic.Call Nat Nat := ⟨0, true, [fun p => (p.1, p.1), fun p => (p.2 + 1, p.2)]⟩
+def exRd : Atomic.Call Nat Nat := ⟨1, false, [fun p => (p.1, p.1)]⟩
+def exCfg : Atomic.Cfg Nat Nat :=
+  ⟨2, fun _ => 5, fun _ => 5, fun i => if i = 0 then ⟨[exInc], none, 0⟩ else ⟨[exRd], none, 0⟩⟩
+
+example : Atomic.Initial exCfg ∧ Atomic.ReadersReadOnly exCfg ∧ ∃ c1, Atomic.CStep exCfg c1 := by
+  refine ⟨⟨fun i => by by_cases h : i = 0 <;> simp [exCfg, h], rfl⟩, ?_, ?_⟩
+  · intro i k hk hex
+    by_cases h : i = 0
+    · simp [exCfg, h] at hk; subst hk; simp [exInc] at hex
+    · simp [exCfg, h] at hk; subst hk
+      intro m hm p; simp [exRd] at hm; subst hm; rfl
+  · refine ⟨_, Atomic.CStep.begin 0 exInc [] (by decide) (by simp [exCfg]) (by simp [exCfg]) ?_⟩
+    intro j _ _ k hk
+    by_cases h : j = 0 <;> simp [exCfg, h] at hk
 
 /-- non-vacuity: the recorded shape of a put, of a cursor open and of an exclusive sync are accepted,
     and a put that would take the allocator while holding the file lock is not -/
